@@ -383,6 +383,7 @@ class Interp:
         for stmts in fn.blocks.values():
             for s in stmts:
                 for m in re.finditer(r'_(\d+)', s): nloc = max(nloc, int(m.group(1)))
+        nloc = max(nloc, len(args))
         for i in range(nloc + 1): fr[i] = Cell()
         for i, a in enumerate(args): fr[i + 1].v = a
         bb = 'bb0'
